@@ -43,6 +43,7 @@ type spvVec struct {
 	Cfg  struct {
 		EidSet      bool     `json:"eidSet"`
 		NoIdent     bool     `json:"noIdent"`
+		IdpStub     bool     `json:"idpStub"`
 		AudVal      string   `json:"audVal"`
 		Cur         string   `json:"cur"`
 		AllowIdp    bool     `json:"allowIdp"`
@@ -390,6 +391,10 @@ func spvRun(c *spvCase) spvObs {
 	}
 	if v.Cfg.NoIdent {
 		s.EntityID, s.MetadataURL = "", url.URL{}
+	}
+	if v.Cfg.IdpStub { // trust by pinned certificate, metadata without entityID
+		pinned := key("idp1").CertB64()
+		s.IDPMetadata, s.IDPCertificate = &saml.EntityDescriptor{}, &pinned
 	}
 	s.AllowIDPInitiated = v.Cfg.AllowIdp
 	switch v.Cfg.AudVal {
